@@ -42,13 +42,14 @@ static void xt_push(TickitTerm *tt, const char *s)
   tickit_term_input_push_bytes(tt, s, strlen(s));
 }
 
-/* replies to the probes of start(): mode 69 (slrm: 1 = supported), 25 / 12 with the DECRPM
+/* replies to the probes of start(): mode 69 (slrm = the DECRPM value of the reply: 0 not recognised, 1 set, 2 reset,
+ * 3 permanently set, 4 permanently reset), 25 / 12 with the DECRPM
  * values given (0 = no reply), DECSCUSR report (shape < 0 = no reply), SGR report choosing
  * the sub-parameter separator; RGB through the private control */
 static void xt_probe(TickitTerm *tt, int slrm, int rpm25, int rpm12, int decscusr, int colon, int rgb)
 {
   char buf[64];
-  snprintf(buf, sizeof buf, "\e[?69;%d$y", slrm ? 1 : 0); xt_push(tt, buf);
+  snprintf(buf, sizeof buf, "\e[?69;%d$y", slrm); xt_push(tt, buf);
   if(rpm25) { snprintf(buf, sizeof buf, "\e[?25;%d$y", rpm25); xt_push(tt, buf); }
   if(rpm12) { snprintf(buf, sizeof buf, "\e[?12;%d$y", rpm12); xt_push(tt, buf); }
   if(decscusr >= 0) { snprintf(buf, sizeof buf, "\eP1$r%d q\e\\", decscusr); xt_push(tt, buf); }
@@ -63,10 +64,17 @@ static int xt_getcap(TickitTerm *tt, const char *name)
   return v;
 }
 
+/* sets the attributes of the compact syntax on an existing pen object */
+static void xt_apply_pen(TickitPen *pen, const char *s);
 static TickitPen *xt_parse_pen(const char *s)
 {
   TickitPen *pen = tickit_pen_new();
-  if(strcmp(s, "-") == 0) return pen;
+  xt_apply_pen(pen, s);
+  return pen;
+}
+static void xt_apply_pen(TickitPen *pen, const char *s)
+{
+  if(strcmp(s, "-") == 0) return;
   char *copy = strdup(s), *save = NULL;
   for(char *item = strtok_r(copy, ",", &save); item; item = strtok_r(NULL, ",", &save)) {
     char *eq = strchr(item, '=');
@@ -94,7 +102,19 @@ static TickitPen *xt_parse_pen(const char *s)
     }
   }
   free(copy);
-  return pen;
+}
+/* tickit_pen_clear_attr for every attribute named in "u=0,af=0" (the values are ignored) */
+static void xt_clear_attrs(TickitPen *pen, const char *s)
+{
+  if(strcmp(s, "-") == 0) return;
+  char *copy = strdup(s), *save = NULL;
+  for(char *item = strtok_r(copy, ",", &save); item; item = strtok_r(NULL, ",", &save)) {
+    char *eq = strchr(item, '=');
+    if(eq) *eq = 0;
+    TickitPenAttr attr = tickit_penattr_lookup(item);
+    if((int)attr >= 1) tickit_pen_clear_attr(pen, attr);
+  }
+  free(copy);
 }
 
 /* canonical text of a pen, attributes in enum order */
